@@ -87,6 +87,7 @@ def get_gender(number):
 
 def get_region(number):
     """Return (political) region from valid EMŠO."""
+    number = compact(number)
     return number[7:9]
 
 
